@@ -9,7 +9,7 @@ import ChessVerif.Proofs.SearchRoot
 namespace ChessVerif
 namespace Search
 
-variable {σ π : Type}
+variable {σ π : Type} [PsInv σ]
 
 /-- what the root analysis concludes about a state `s'` reached from root board `b`. -/
 def RootOut' (K : Keys) (b : Board) (s' : St σ) : Prop := s'.pv.row 0 ≠ [] ∨ Final K b
@@ -18,7 +18,7 @@ theorem abMoves_root' (c : Comp σ π) (L : Limits) {Good : Board → Prop} {TTo
     (hl : Laws c Good) (sl : ScoreLaws c Good TTok μ) (child : Child σ)
     (hc : ABSpec c L Good child) (hr : ABRange Good TTok child) (alpha beta : Score) (hw : WinOK alpha beta) (d : Int)
     (nt : NodeType) (inCheck improving : Bool) (se : Score)
-    (hm : Move) (s : St σ) (hg : Good s.board) (htt : TTok s.ps) :
+    (hm : Move) (s : St σ) (hg : Good s.board) (hfl : s.board.fifty < 100) (hhash : HashOK c s.board hm) (htt : TTok s.ps) :
     let o := abMoves c L child alpha beta d 0 nt inCheck improving se hm s
     o.2.aborted = false → alpha < o.1 → o.1 < beta → RootOut' c.keys s.board o.2 := by
   simp only [abMoves]
@@ -28,13 +28,13 @@ theorem abMoves_root' (c : Comp σ π) (L : Limits) {Good : Board → Prop} {TTo
   obtain ⟨hw1, hw2, hw3, hw4⟩ := hw
   have h := abLoop_root c L hl child hc x hxp hm ((MoveGen.gen s.board).length + 1)
     { alpha := alpha, bestMove := 0, hasLegal := false, failLow := true, maxim := -Inf - 1, moveCnt := 0, quietCnt := 0,
-      pick := c.pickInit s.board hm, yielded := [] } s.pushFrame hg Reach.init (fun _ m hm => by cases hm)
-      (fun hh => by cases hh)
+      pick := c.pickInit s.board hm, yielded := [] } s.pushFrame hg ⟨sl.tt_ok _ htt, hfl⟩ hhash Reach.init
+      (fun _ m hm => by cases hm) (fun hh => by cases hh)
   have h' := abLoop_range c L hl sl child hc hr x (by rw [hxp]; decide) (by rw [hxp]; decide)
     (by rw [hxb]; exact hw3) (by rw [hxb]; exact hw4) hm alpha
     ((MoveGen.gen s.board).length + 1)
     { alpha := alpha, bestMove := 0, hasLegal := false, failLow := true, maxim := -Inf - 1, moveCnt := 0, quietCnt := 0,
-      pick := c.pickInit s.board hm, yielded := [] } s.pushFrame hg Reach.init htt
+      pick := c.pickInit s.board hm, yielded := [] } s.pushFrame hg hfl hhash Reach.init htt
     ⟨hw1, hw2, (fun h => by cases h), (fun _ => rfl), Int.le_refl _, Int.le_refl _, (fun h => by simp at h),
      fun _ => ⟨rfl, fun h => by cases h⟩⟩
   simp only at h'
@@ -72,7 +72,8 @@ theorem abPrune_root' (c : Comp σ π) (L : Limits) {Good : Board → Prop} {TTo
     (hl : Laws c Good) (sl : ScoreLaws c Good TTok μ) (child : Child σ)
     (hc : ABSpec c L Good child) (hr : ABRange Good TTok child) (alpha beta : Score) (hw : RootWin alpha beta) (d : Int)
     (hd : 0 ≤ d) (nt : NodeType) (inCheck improving : Bool) (se : Score) (hse : inCheck = false → InR se)
-    (hm : Move) (s : St σ) (hg : Good s.board) (hic : inCheck = s.board.inCheck s.board.stm) (htt : TTok s.ps) :
+    (hm : Move) (s : St σ) (hg : Good s.board) (hfl : s.board.fifty < 100) (hhash : HashOK c s.board hm)
+    (hic : inCheck = s.board.inCheck s.board.stm) (htt : TTok s.ps) :
     let o := abPrune c L child alpha beta d 0 nt inCheck improving se hm s
     o.2.aborted = false → alpha < o.1 → o.1 < beta → RootOut' c.keys s.board o.2 := by
   simp only [abPrune]
@@ -90,7 +91,7 @@ theorem abPrune_root' (c : Comp σ π) (L : Limits) {Good : Board → Prop} {TTo
         simp only [Bool.and_eq_true] at hnm; exact hnm.2
       have hbse : (beta : Int) ≤ se := sl.nmp_sound _ _ _ _ hnmp
       have hb2 : beta ≤ 10000 := Int.le_trans hbse (hse hic').2
-      have hn := nullMove_spec c L hl child hc beta d (Int.le_refl 0) (by decide) se s hg hchk
+      have hn := nullMove_spec c L hl child hc beta d (Int.le_refl 0) (by decide) se s hg (sl.tt_ok _ htt) hchk
       have hnr := nullMove_range c hl child hr beta d (Int.le_refl 0) (by decide) se s hg hchk htt hw.1.2.2.1 hb2
       have hge := nullMove_ge c child beta d 0 se s
       simp only at hn hnr
@@ -98,15 +99,15 @@ theorem abPrune_root' (c : Comp σ π) (L : Limits) {Good : Board → Prop} {TTo
       split
       · next v hv => intro _ _ hlt; exact absurd hlt (Int.not_lt.2 (hge v hv))
       · have := abMoves_root' c L hl sl child hc hr alpha beta hw.1 d nt inCheck improving se hm nm.2
-          (by rw [hn.1.board]; exact hg) hnr.1
+          (by rw [hn.1.board]; exact hg) (by rw [hn.1.board]; exact hfl) (by rw [hn.1.board]; exact hhash) hnr.1
         rw [hn.1.board] at this
         exact this
-    · exact abMoves_root' c L hl sl child hc hr alpha beta hw.1 d nt inCheck improving se hm s hg htt
+    · exact abMoves_root' c L hl sl child hc hr alpha beta hw.1 d nt inCheck improving se hm s hg hfl hhash htt
 
 theorem abBody_root' (c : Comp σ π) (L : Limits) {Good : Board → Prop} {TTok : σ → Prop} {μ : Board → Nat}
     (hl : Laws c Good) (sl : ScoreLaws c Good TTok μ) (child : Child σ)
     (hc : ABSpec c L Good child) (hr : ABRange Good TTok child) (alpha beta : Score) (hw : RootWin alpha beta) (d : Int)
-    (hd : 0 ≤ d) (s : St σ) (hg : Good s.board) (htt : TTok s.ps) :
+    (hd : 0 ≤ d) (s : St σ) (hg : Good s.board) (hfl : s.board.fifty < 100) (htt : TTok s.ps) :
     let o := abBody c L child alpha beta d 0 .pv s
     o.2.aborted = false → alpha < o.1 → o.1 < beta → RootOut' c.keys s.board o.2 := by
   simp only [abBody]
@@ -116,7 +117,8 @@ theorem abBody_root' (c : Comp σ π) (L : Limits) {Good : Board → Prop} {TTok
     split at heq
     · simp at heq
     · cases heq
-  · refine abPrune_root' c L hl sl child hc hr alpha beta hw d hd .pv _ _ _ ?_ _ s hg rfl htt
+  · refine abPrune_root' c L hl sl child hc hr alpha beta hw d hd .pv _ _ _ ?_ _ s hg hfl
+      (hashOK_probe c (sl.tt_ok _ htt) s.board 0) rfl htt
     intro h
     simp only [h, Bool.false_eq_true, if_false]
     exact inR_eval c s.board
@@ -156,8 +158,9 @@ theorem alphaBeta_root' (c : Comp σ π) (L : Limits) {Good : Board → Prop} {T
           have : (min (0 : Int) 1) = 0 := by decide
           rw [this] at h
           omega
-      · have := abBody_root' c L hl sl (alphaBeta c L fuel) (alphaBeta_spec c L hl fuel) (alphaBeta_range c L hl sl fuel)
-          alpha beta hw d (by omega) as.2 (by rw [hb]; exact hg) (by rw [hps]; exact htt)
+      · next hnd =>
+        have := abBody_root' c L hl sl (alphaBeta c L fuel) (alphaBeta_spec c L hl fuel) (alphaBeta_range c L hl sl fuel)
+          alpha beta hw d (by omega) as.2 (by rw [hb]; exact hg) (fifty_lt_of_not_draw hnd) (by rw [hps]; exact htt)
         rw [hb] at this
         exact this
 
